@@ -124,6 +124,15 @@ struct C16 : Harness {
             if (t[i].ret != exp[i].ret || (exp[i].has_out && t[i].out != exp[i].out))
                 return "op #" + std::to_string(i) + " [" + ser(p[i]).substr(0, 160) + "]: after a failed and a repeated init the object misbehaves: " + rec_str(t[i]).substr(0, 300);
         }
+        {   // the init after the failure must be served by the same back end as the one before it (same cap)
+            int first = -2;
+            for (size_t i = 0; i < p.size(); ++i) {
+                if (t[i].be < 0 || t[i].ret != 1) continue;
+                if (first == -2) first = t[i].be;
+                else if (first != t[i].be) return "op #" + std::to_string(i) + " [" + ser(p[i]).substr(0, 120) + "]: after a failed init the next init is served by back end " +
+                                                  std::to_string(t[i].be) + " instead of " + std::to_string(first);
+            }
+        }
         ex.finalize();
         if (skv_mon_live() != orphans) return "leak: " + std::to_string(skv_mon_live()) + " block(s) live at the end (expected " + std::to_string(orphans) + ")";
         if (!st.shrinking) {
